@@ -19,6 +19,60 @@ pub trait Policy: Send
     /// `runnable` is sorted ascending and non-empty; `current` is Some(id) when the yielding
     /// thread itself can continue.  Returns the id to run next (must be in `runnable`).
     fn choose(&mut self, runnable: &[usize], current: Option<usize>, step: u64) -> usize;
+
+    /// As `choose`, with the tag of the operation the yielding thread is about to perform
+    /// (e.g. "rename:.ruler/cache/<hash>"); default: ignore the tag.
+    fn choose_tagged(&mut self, runnable: &[usize], current: Option<usize>, step: u64, _tag: &str) -> usize
+    {
+        self.choose(runnable, current, step)
+    }
+}
+
+/// Serial baseline plus preemptions addressed by (thread, operation tag, occurrence): robust against the
+/// renumbering of steps that an earlier preemption causes.
+pub struct PreemptOnTag
+{
+    pub points: Vec<(usize, String, u32, u16)>,
+    pub seen: std::collections::HashMap<(usize, String), u32>,
+    pub taken: Arc<Mutex<u32>>,
+}
+
+impl Policy for PreemptOnTag
+{
+    fn choose(&mut self, runnable: &[usize], current: Option<usize>, _step: u64) -> usize
+    {
+        match current
+        {
+            Some(c) => c,
+            None => runnable[0],
+        }
+    }
+
+    fn choose_tagged(&mut self, runnable: &[usize], current: Option<usize>, step: u64, tag: &str) -> usize
+    {
+        if let Some(me) = current
+        {
+            if !tag.is_empty()
+            {
+                let n = self.seen.entry((me, tag.to_string())).or_insert(0);
+                *n += 1;
+                let occ = *n;
+                for (t, g, o, c) in self.points.iter()
+                {
+                    if *t == me && *o == occ && g == tag
+                    {
+                        let others: Vec<usize> = runnable.iter().cloned().filter(|r| *r != me).collect();
+                        if !others.is_empty()
+                        {
+                            *self.taken.lock().unwrap() += 1;
+                            return others[(*c as usize) % others.len()];
+                        }
+                    }
+                }
+            }
+        }
+        self.choose(runnable, current, step)
+    }
 }
 
 pub struct Serial
@@ -249,6 +303,8 @@ struct St
     policy: Box<dyn Policy>,
     trace: Vec<u16>,
     record_trace: bool,
+    record_yields: bool,
+    ylog: Vec<(usize, String)>,
     panics: Vec<String>,
     next_chan: usize,
     ev: Events,
@@ -391,7 +447,12 @@ impl St
 
 /// Hand the baton on.  `me_runnable` says whether the caller may be chosen again.
 /// Returns with the baton held by `me` (or unwinds on abort).
-fn reschedule(inner: &Arc<Inner>, mut st: MutexGuard<'_, St>, me: usize, me_runnable: bool)
+fn reschedule(inner: &Arc<Inner>, st: MutexGuard<'_, St>, me: usize, me_runnable: bool)
+{
+    reschedule_tagged(inner, st, me, me_runnable, "")
+}
+
+fn reschedule_tagged(inner: &Arc<Inner>, mut st: MutexGuard<'_, St>, me: usize, me_runnable: bool, tag: &str)
 {
     if st.aborting.is_some()
     {
@@ -416,7 +477,11 @@ fn reschedule(inner: &Arc<Inner>, mut st: MutexGuard<'_, St>, me: usize, me_runn
         unwind_abort();
     }
     let step = st.step;
-    let next = st.policy.choose(&runnable, if me_runnable { Some(me) } else { None }, step);
+    if st.record_yields && me_runnable && !tag.is_empty()
+    {
+        st.ylog.push((me, tag.to_string()));
+    }
+    let next = st.policy.choose_tagged(&runnable, if me_runnable { Some(me) } else { None }, step, tag);
     let next = if runnable.contains(&next) { next } else { runnable[0] };
     if st.record_trace
     {
@@ -458,6 +523,21 @@ pub fn yield_here()
     }
 }
 
+/// Yield point carrying the tag of the operation about to be performed.
+pub fn yield_tagged(op: &str, path: &str)
+{
+    if let Some((inner, me)) = ctx()
+    {
+        let st = lock(&inner);
+        let wants = st.record_yields || true;
+        if wants
+        {
+            let tag = format!("{}:{}", op, path);
+            reschedule_tagged(&inner, st, me, true, &tag);
+        }
+    }
+}
+
 /// Abort the whole controlled execution (crash injection): every thread unwinds.
 pub fn abort_all(reason: &str) -> !
 {
@@ -494,6 +574,7 @@ pub struct RunOutcome<R>
     pub trace: Vec<u16>,
     pub events: Events,
     pub leftover_threads: usize,
+    pub yields: Vec<(usize, String)>,
 }
 
 static HOOK: std::sync::Once = std::sync::Once::new();
@@ -535,6 +616,11 @@ pub fn install_panic_hook()
 /// Run `f` on the calling thread as controlled thread 0 under `policy`.
 pub fn run_controlled<R>(policy: Box<dyn Policy>, record_trace: bool, f: impl FnOnce() -> R) -> RunOutcome<R>
 {
+    run_controlled_opts(policy, record_trace, false, f)
+}
+
+pub fn run_controlled_opts<R>(policy: Box<dyn Policy>, record_trace: bool, record_yields: bool, f: impl FnOnce() -> R) -> RunOutcome<R>
+{
     install_panic_hook();
     assert!(!in_controlled(), "nested controlled execution");
     let inner = Arc::new(Inner
@@ -551,6 +637,8 @@ pub fn run_controlled<R>(policy: Box<dyn Policy>, record_trace: bool, f: impl Fn
             policy,
             trace: vec![],
             record_trace,
+            record_yields,
+            ylog: vec![],
             panics: vec![],
             next_chan: 0,
             ev: Events::default(),
@@ -619,6 +707,7 @@ pub fn run_controlled<R>(policy: Box<dyn Policy>, record_trace: bool, f: impl Fn
         trace: std::mem::take(&mut st.trace),
         events: st.ev.clone(),
         leftover_threads: leftover,
+        yields: std::mem::take(&mut st.ylog),
     }
 }
 
